@@ -5,7 +5,7 @@ import json, os, sys
 ROOT = os.path.dirname(os.path.dirname(os.path.abspath(__file__)))
 
 # property id -> (technique, level text, level note, design ref)
-BUILT = ["C01","C02","C03","C04","C05","C06","C08","C09","C10"]
+BUILT = ["C01","C02","C03","C04","C05","C06","C07","C08","C09","C10","C11","C12","C13","C14"]
 
 X = "exploration"
 CHECKS_ALL = {
@@ -45,6 +45,26 @@ CHECKS_ALL = {
          "All 256 type codes (against a hand-written ICD table, distinctness and verbatim preservation), the six channel codes, all 65,536 size values x 64 corner (count, number) pairs plus sampled pairs, and random distinct-valued headers for the layout; every accessor must return, plain and unit-typed sizes must agree and equal the statement's rules.",
          "ICD Table III transcribed by hand; the harness is built with overflow checks and debug assertions on.",
          "DESIGN.md §2 C10"),
+ "C07": ("reference-model monitor: exhaustive raw-value sweep (2^8 and 2^16 raws x 200 scale/offset pairs) and seeded messages through the real decoder and both radial conversions; bit-exact f32 comparison; Miri lane in thorough",
+         "Every raw value of both word sizes under 200 (scale, offset) pairs (0, -0, negative, subnormal, huge) is converted at the decode level and the model level and compared bit-for-bit with (raw-offset)/scale computed in f32, sentinels 0/1, raw when scale is 0; all 256 spacing codes and status codes 0..=5; random messages over all block subsets check radial()==into_radial(), header mapping and absent moments.",
+         "Raw 0/1 with scale 0 may be sentinel or raw (left open by the statement) but both levels must agree; status codes >= 6 only must not panic.",
+         "DESIGN.md §2 C07"),
+ "C11": ("reference-model monitor: hand-written VCP encoder for every cut count 0..=51, exhaustive 2^16 / 2^8 raw sweeps of every scaled and bit-field accessor, truncation and overlong-count error cases, summary mirror",
+         "All cut counts are encoded with distinct field values and compared field by field (raw and framed as type 5); every scaled accessor is checked on all 65,536 raws with exact f64 equality (uom variants within 1e-9), every flag/sub-field accessor against its documented bit slice for every raw (which is 'reads exactly those bits and no others'); declared counts 52..65535 and short bodies must be errors.",
+         "Offsets and bit positions transcribed from ICD 2620002W Table XI (Appendix A).",
+         "DESIGN.md §2 C11"),
+ "C12": ("reference-model monitor: 60 distinct halfwords for the layout; documented-code tables for 14 coded accessors; exhaustive 2^16 sweeps of 3 flag words, scaled values, VCP number and the alarm lookup",
+         "Field i must be halfword i; each coded accessor must give the documented meaning (by variant name) on each documented code with distinct codes distinct; each flag accessor must equal its documented bit on all 65,536 words (either reading accepted where the doc line is self-inconsistent, one reading per word); raw/100, the build-number rule, VCP sign/magnitude and the alarm table (0..=800 defined carrying their code, none above) are checked on every 16-bit value; alarm_messages() on random code arrays.",
+         "Documented meaning = the rustdoc on the wire fields (DESIGN.md Appendix B); undocumented codes are not judged.",
+         "DESIGN.md §2 C12"),
+ "C13": ("reference-model monitor: hand-written clutter-map encoder (0..=255 segments x 360 azimuths x 0..=25(+65535) zones) vs the real decoder; truncation at structural boundaries",
+         "The decoded tree must equal the generator's tree (segment numbers consecutive, azimuth numbers 0..=359, zones in order, op codes 0/1/2 meanings, calendar instant) and any strict prefix must be an error (boundaries +/-3 bytes and random points).",
+         "Segment-number base is not prescribed (consecutive only).",
+         "DESIGN.md §2 C13"),
+ "C14": ("reference-model monitor: message lists produced as bytes, decoded by the real decoder, summarized, compared with a 60-line reference model computed from the generator's spec; exhaustive kind strings of length <= 6",
+         "All 55,987 kind strings of length <= 6 over {R(e=1), R(e=2), S, V, O(3), O(18)} and random lists to 500 messages: groups tile 0..n, count == span, maximal runs with status/VCP singletons, continued iff an earlier radial group shares the elevation, per-group data-type counts, first/last azimuth and time, min/max time over radial+status messages, VCP set, status/VCP info mirrors.",
+         "Message dates >= 2; status coded fields inside their documented domains; VOL VCP numbers in the six the crate names.",
+         "DESIGN.md §2 C14"),
 }
 CHECKS = {k: v for k, v in CHECKS_ALL.items() if k in BUILT}
 
